@@ -115,6 +115,14 @@ func vBlockRoundTrip[T any](l vLeafSpec[T]) {
 	}
 	verifAssert(eq, "typed-values")
 	verifAssert(vExhausted(r), "typed-exhausted")
+	if n == 0 {
+		// a target that still holds rows of an earlier block must come out empty as well
+		used := l.mk()
+		l.app(used, l.gen())
+		var du Block
+		err = du.DecodeBlock(NewReader(bytes.NewReader(b0.Buf)), version, Results{{Name: "c", Data: used}})
+		verifAssert(err == nil && used.Rows() == 0, "zero-row-block-clears-used-target")
+	}
 
 	// (c) inferred decode
 	if l.auto != nil {
